@@ -220,10 +220,10 @@ def run(tier, seed):
                     'eval_err_to_stacktrace', 'new_loc_err closures'}
     jobs = []
     if tier == 'quick':
-        jobs += [scanner_job(1, False), scanner_job(2, False), scanner_job(3, True)]
+        sjobs = [scanner_job(1, False), scanner_job(2, False), scanner_job(3, True)]
         ks = [1, 2]
     else:
-        jobs += [scanner_job(1, False), scanner_job(2, False), scanner_job(3, False), scanner_job(4, True)]
+        sjobs = [scanner_job(1, False), scanner_job(2, False), scanner_job(3, False), scanner_job(4, True)]
         ks = [1, 2, 3]
     for tname in TAILS:
         for kind in ('layout', 'comment', 'string', 'indent-comment', 'continuation'):
@@ -235,5 +235,6 @@ def run(tier, seed):
                 'shift_lemma': '%d tails x layout prefixes of <= %d symbolic bytes: {space, tab, CR, LF}*, `#` comment with arbitrary UTF-8 text, multi-line string literal, indented comment, continuation line break' % (len(TAILS), max(ks))}
     c.outside = ['inputs longer than the stated byte counts', 'positions inside interpolation slots (relative to the slot, not stated)', 'column of an end-of-file parse error', 'position of an integer-overflow lexical error within the literal']
     c.assumptions.append('when the current character is a line feed both (line, len+1) and the implementation-chosen (line+1, 0) are accepted (DESIGN.md 3.2)')
-    c.run_jobs('positions', jobs, par_jobs=8, par_paths=2)
+    c.run_jobs('scanner-invariant', sjobs, par_jobs=len(sjobs), par_paths=max(2, 16 // len(sjobs)), timeout=3000)
+    c.run_jobs('shift-lemma', jobs, par_jobs=8, par_paths=2)
     return c.finish()
